@@ -584,11 +584,22 @@ class Oracle:
         self.start_name = {}
         self.finished_delivered = set()
         self.stops = {}
+        self.only_explicit = set()   # actions whose only Stop so far was an explicit `send $action.Stop()`
         self.viol = []
 
-    def before_event(self, ev):
+    def before_event(self, ev, state=None):
         if ev.get("type", "").endswith("ActionFinished") and ev.get("action_uid"):
             self.finished_delivered.add(ev["action_uid"])
+        if ev.get("type", "").endswith("ActionStarted") and ev.get("action_uid") in self.only_explicit:
+            # the program stopped the action itself (`send $action.Stop()`, which leaves the flow's share
+            # untouched) and the action now reports that it runs: the lifetime layer owes it a Stop
+            # when its owners end, so the explicit Stop no longer counts as "the" Stop
+            a = ev["action_uid"]
+            held = state is not None and any(
+                _running(f) and a in f.action_uids and (u, a) not in self.rec.released for u, f in state.flow_states.items())
+            if held:   # (with no running owner left the explicit Stop stays the action's Stop)
+                self.only_explicit.discard(a)
+                self.stops[a] = 0
 
     def after_step(self, state, step):
         V = self.viol
@@ -603,8 +614,11 @@ class Oracle:
             elif t.startswith("Stop") and t.endswith("Action") and a:
                 if e.get("uid") in self.rec.explicit_stops:
                     # requested by the program itself; it counts as the action's Stop
+                    if self.stops.get(a, 0) == 0:
+                        self.only_explicit.add(a)
                     self.stops[a] = max(self.stops.get(a, 0), 1)
                     continue
+                self.only_explicit.discard(a)
                 if a not in self.start_name:
                     V.append(("stop-for-never-started-action", step, f"{t} for action {a} that was never started", e))
                 elif a in self.finished_delivered:
@@ -725,7 +739,7 @@ def run_one(sm, fl, U, src, history, policy):
                 ev = {"type": f"E{item[1] % NEV}"}
             prev_ev = ev
             events_fed.append(ev)
-            orc.before_event(ev)
+            orc.before_event(ev, state)
             state = U.step(state, dict(ev))
             orc.after_step(state, step)
     except sm.__dict__.get("VerifStepBudgetExceeded", ()) as e:  # the C10 hook, when the tree has it
